@@ -96,6 +96,9 @@ func (c *tsCtx) store(lhs ast.Expr, val string, pos token.Pos, k tsK) trLines {
 	if id, ok := trUnparen(lhs).(*ast.Ident); ok && id.Name == "_" {
 		return k()
 	}
+	if tl, ok := c.tsbStore(lhs, val, pos, k); ok { // map entries, slice elements (trans_syntax_bayes.go)
+		return tl
+	}
 	lv := c.lvalOf(lhs)
 	if lv == nil {
 		trFail(pos, "assignment to %s is outside the subset", trSrc(lhs))
@@ -559,6 +562,9 @@ func (c *tsCtx) exprStmt(x *ast.ExprStmt, k tsK) trLines {
 			return tsWrapPre(pre, k())
 		}
 	}
+	if tl, ok := c.tsbExprStmt(call, k); ok {
+		return tl
+	}
 	ci := c.resolveCall(call)
 	if ci.fobj != nil && ci.fobj.FullName() == "(*strings.Builder).WriteString" {
 		val := "(Syn.Builder.WriteString " + c.expr(ci.sel.X) + " " + c.expr(call.Args[0]) + ")"
@@ -647,6 +653,9 @@ func (c *tsCtx) assign(x *ast.AssignStmt, k tsK) trLines {
 		return tsWrapPre(pre, c.store(x.Lhs[0], val, x.Pos(), k))
 	}
 	if tl := c.tspAssertAssign(x, k); tl != nil {
+		return tl
+	}
+	if tl := c.tsbCommaOk(x, k); tl != nil {
 		return tl
 	}
 	// a call of a translated function (one or several results)
@@ -919,6 +928,7 @@ func (c *tsCtx) loopParams(free, state []types.Object) (params, callArgs, sparam
 		sparams = append(sparams, "("+c.names[o]+" : "+c.leanType(o.Type(), o.Pos())+")")
 		sargs = append(sargs, c.names[o])
 	}
+	params, callArgs = c.tsbLoopExtras(params, callArgs)
 	return
 }
 
@@ -1023,8 +1033,11 @@ func (c *tsCtx) rangeStmt(x *ast.RangeStmt, k tsK) trLines {
 	}
 	tx := c.typeOf(x.X)
 	strMode := tsIsString(tx)
+	mapMode := false // for k := range m: the keys in the order given by an extra parameter (trans_syntax_bayes.go)
 	var elemTy types.Type
-	if !strMode {
+	if mt, ok := tx.Underlying().(*types.Map); ok {
+		mapMode, elemTy = true, mt.Key()
+	} else if !strMode {
 		sl, ok := tx.Underlying().(*types.Slice)
 		if !ok {
 			trFail(x.Pos(), "range over %s is outside the subset", tx)
@@ -1032,6 +1045,9 @@ func (c *tsCtx) rangeStmt(x *ast.RangeStmt, k tsK) trLines {
 		elemTy = sl.Elem()
 	}
 	xs := c.expr(x.X)
+	if mapMode {
+		xs = c.tsbMapRange(x, xs)
+	}
 	pre := c.takePre()
 	state := c.assignedIn(x.Body)
 	free := c.freeVars(state, x.Body)
@@ -1049,6 +1065,9 @@ func (c *tsCtx) rangeStmt(x *ast.RangeStmt, k tsK) trLines {
 		if id, ok := x.Value.(*ast.Ident); ok && id.Name != "_" {
 			valName = c.local(c.info().Defs[id])
 		}
+	}
+	if mapMode {
+		keyName, valName = "", keyName // the loop variable is the element of the list of keys
 	}
 	var et string
 	if strMode {
